@@ -14,6 +14,7 @@ MODULES = {
     "C03": "harness.c03_arch",
     "C14": "harness.c14_actions",
     "C15": "harness.c15_obs",
+    "C16": "harness.c16_dist",
 }
 
 TECH = "symbolic execution of the real Python functions on z3-backed proxies (re-execution path exploration); each obligation decided per path by z3 as pc ∧ assumptions ∧ ¬obligation; sat models replayed on the real code"
@@ -75,6 +76,11 @@ CLAIMED = {
         "level_note": NOTE + "; that a real network's greedy action/value is batch-independent (torch kernels) is outside: only the routing around the network is decided",
         "technique": TECH,
     },
+    "C16": {
+        "level_text": "bounded symbolic verification of the real EvolvableDistribution.forward/get_distribution/apply_mask/log_prob/entropy, TorchDistribution and its four handlers, StochasticActor.forward/scale_action/action_log_prob on a real StochasticActor whose head returns symbolic logits, with torch.distributions' Normal/Categorical/Bernoulli abstracted to uninterpreted per-component log-prob/entropy symbols and samples that are fresh symbols in the support: for all logits, samples and masks at batch<=2(3) over Discrete(3), MultiDiscrete([2,3]), MultiBinary(3), Box(1), Box(2) with asymmetric bounds: the returned action is in the support (masked categories never returned; squashed: tanh(sample) scaled affinely into the box), the log-prob is the sum over COMPONENTS (one number per batch row) of the component log-probs under the masked logits at the returned action (minus the tanh correction of the raw sample when squashing), the entropy is the sum of component entropies (None when squashing), and re-evaluating a stored action after a second forward uses the current logits at the stored action",
+        "level_note": NOTE + "; torch.distributions' densities and samplers are the trusted base (abstracted); exp/log/tanh uninterpreted",
+        "technique": TECH + "; torch.distributions abstracted by uninterpreted functions (a proof under the abstraction is sound, counterexamples are replayed on the real distributions)",
+    },
     "C17": {
         "level_text": "bounded symbolic verification of the real PPO.learn / IPPO.learn up to the minibatch loop: for all rewards, values, done flags, bootstrap values, log-probs, gamma, lambda at rollout shapes T<=3(5), envs<=2(3), agents<=2(3), the flattened rows handed to the minibatch loop carry, for every (agent, step, env), that triple's observation, action, old log-prob, old value and the GAE advantage/return defined by the statement's recursion (up to a permutation of rows)",
         "level_note": NOTE,
@@ -91,4 +97,4 @@ NOT_APPLICABLE = {
 
 # designed in DESIGN.md §5 but the check is not built/registered yet (moves to CLAIMED when it lands)
 PENDING = {pid: "solver-based check designed (DESIGN.md §5) but not yet built in this tree; not claimed until it is"
-           for pid in ["C12", "C13", "C16", "C19"]}
+           for pid in ["C12", "C13", "C19"]}
